@@ -2,11 +2,13 @@
   Routine-level certificate check for programs with subroutines: like `Check.closed`, but the
   entry pc is a parameter and calls / frame instructions are matched syntactically
   (`callsub` against `callsub` with a consistent routine ↦ label map, `retsub` terminal).
-  NOTE: `sim_sound` (Proofs/Sim.lean) is proved for `closed` (call-free main routines) only; this
-  extension is a structural correspondence check, not yet backed by a theorem.
+  `checkCert` is the whole-program certificate check: one `closedAt` relation per routine plus
+  the side conditions on the routine ↦ label map.  It is sound with respect to the multi-routine
+  graph machine of Comp/ProgGraph.lean: `simR_sound_forward/backward` (Proofs/SimR.lean).
 -/
 import PyTealV.Check.Sim
 import PyTealV.Comp.GenProg
+import PyTealV.Comp.ProgGraph
 namespace PyTealV.Check
 open PyTealV PyTealV.Avm PyTealV.Comp
 
@@ -101,5 +103,50 @@ def harvestCalls (G : Graph) (P : Program) (V : Rel) : List (String × String) :
         | _, _ => none)
       | _, _ => none)
     | _ => none)
+
+/-! ### whole-program certificate -/
+
+/-- certificate of one subroutine: model label, real label, graph + entry block, pc of the real
+    label, relation -/
+structure RoutineCert where
+  ml : String
+  rl : String
+  G : Graph
+  start : Nat
+  p0 : Nat
+  V : Rel
+
+structure ProgCert where
+  Gm : Graph
+  sm : Nat
+  Vm : Rel
+  labels : List (String × String)       -- (model label, real label)
+  subs : List RoutineCert
+
+/-- the program of the multi-routine graph machine that the certificate is about -/
+def ProgCert.prog (c : ProgCert) : PProg :=
+  { main := c.Gm, start := c.sm, subs := c.subs.map (fun r => (r.ml, r.G, r.start)) }
+
+/-- no pair of the relation puts the end of the routine graph against a pc (for subroutines:
+    a subroutine is left through `retsub` only) -/
+def noFell (V : Rel) : Bool :=
+  V.all (fun (gp, _) => match gp with
+    | .fell _ => false
+    | _ => true)
+
+/-- everything the soundness theorem assumes, as one decidable check:
+    * the main relation is closed from pc 0;
+    * for every subroutine: the real label is at `p0`, the relation is closed from `p0` and never
+      reaches the end of the subroutine graph;
+    * every pair `(a, b)` of the label map (the only `callsub a` / `callsub b` matches that
+      `strictEqR` accepts) names a certified subroutine `a` whose real label is `b`
+      (so the map is functional on the model labels). -/
+def checkCert (P : Program) (c : ProgCert) : Bool :=
+  closedAt (strictEqR c.labels) c.Gm c.sm P 0 c.Vm &&
+  c.subs.all (fun r => findLabel P r.rl == some r.p0 &&
+    closedAt (strictEqR c.labels) r.G r.start P r.p0 r.V && noFell r.V) &&
+  c.labels.all (fun (a, b) => match c.subs.find? (fun r => r.ml == a) with
+    | some r => r.rl == b
+    | none => false)
 
 end PyTealV.Check
